@@ -326,7 +326,8 @@ def main():
                        "detail": "harness crashed", "log": out[-4000:]}, nofail=True)
         else:
             summary = json.load(open(os.path.join(outdir, "summary.json")))
-            files = [f for s in summary["suites"] for f in s["case_files"]]
+            files = [f for s in summary["suites"] for f in (s.get("case_files") or [])]
+            file_suite = {f: s["suite"] for s in summary["suites"] for f in (s.get("case_files") or [])}
             if pr.get("model_ok", True):
                 mism, cerrs = run_cases(outdir, files)
             for s in summary["suites"]:
@@ -385,7 +386,7 @@ def main():
                 violation({"property": pid, "kind": "proof", "detail": pr["broken"], "log": pr.get("log", "")[-3000:]},
                           nofail=True)
             for fname, (idx, body) in mism.items():
-                suite = fname.split("_")[1]
+                suite = file_suite.get(fname, fname.split("_")[1])
                 recs = {}
                 p = os.path.join(outdir, f"{pid}_{suite}_cases.jsonl")
                 for line in open(p):
